@@ -12,6 +12,9 @@ open Remoc.Wire Remoc.Table
 /-- client ports of the `OpenPort` requests in a wire -/
 def reqPorts : List Msg → List Nat
   | .openPort cp _ _ :: w => cp :: reqPorts w
+  -- ports sent over a port are requests as well (not produced by the system model, whose data
+  -- plane is opaque; present in real traces)
+  | .portData _ _ _ _ ps _ :: w => ps ++ reqPorts w
   | _ :: w => reqPorts w
   | [] => []
 
@@ -35,13 +38,17 @@ def isConnecting (e : Ep) (p : Nat) : Bool := lookup e.ports p == some .connecti
 answered with the answer on the wire back -/
 def reqWhere (v : Ep) (wcv wvc : List Msg) : List Nat := reqPorts wcv ++ v.outstanding ++ respPorts wvc
 
-/-- **credit equation** (Ep/wire part): the requests of `c` that are somewhere are exactly its
+/-- **request location** (Ep/wire part of the credit equation): the requests of `c` that are somewhere are exactly its
 connecting ports, their number is `c.clientPending` and at most the queue `v` advertised -/
-def reqInvB (c v : Ep) (wcv wvc : List Msg) : Bool :=
+def reqEqB (c v : Ep) (wcv wvc : List Msg) : Bool :=
   let L := reqWhere v wcv wvc
   decide L.Nodup && L.all (isConnecting c) &&
   c.ports.all (fun kv => kv.2 != .connecting || L.contains kv.1) &&
-  c.clientPending == L.length && decide (c.clientPending ≤ v.cfg.cq) && c.cfg.remoteCq == v.cfg.cq
+  c.clientPending == L.length
+
+/-- **credit equation** with the bound by the advertised queue -/
+def reqInvB (c v : Ep) (wcv wvc : List Msg) : Bool :=
+  reqEqB c v wcv wvc && decide (c.clientPending ≤ v.cfg.cq) && c.cfg.remoteCq == v.cfg.cq
 
 /-- where the outstanding requests of `v` are on the API side: in the listener queue, held by the
 application, or answered with the answer event still queued -/
@@ -202,10 +209,16 @@ open Remoc.Wire Remoc.Table
 
 def b2n (b : Bool) : Nat := if b then 1 else 0
 
+/-- client ports of the `OpenPort` requests (those of a `Client`, not ports sent over a port) -/
+def openReqs : List Msg → List Nat
+  | .openPort cp _ _ :: w => cp :: openReqs w
+  | _ :: w => openReqs w
+  | [] => []
+
 /-- no `OpenPort` behind a `ClientFinish` -/
 def okAfterCF : List Msg → Bool
   | [] => true
-  | .clientFinish :: w => (reqPorts w).isEmpty && !w.contains .clientFinish
+  | .clientFinish :: w => (openReqs w).isEmpty && !w.contains .clientFinish
   | _ :: w => okAfterCF w
 
 /-- each of `ClientFinish`, `ListenerFinish`, `Goodbye` is sent once and is either in flight or
@@ -214,7 +227,7 @@ def flagInvB (x y : Ep) (w : List Msg) : Bool :=
   (w.count .clientFinish + b2n y.remoteClientDropped == b2n x.allClientsDropped) &&
   (w.count .listenerFinish + b2n y.remoteListenerDropped == b2n x.listenerDropped) &&
   (w.count .goodbye + b2n y.goodbyeReceived == b2n x.goodbyeSent) &&
-  okAfterCF w && (!y.remoteClientDropped || (reqPorts w).isEmpty) &&
+  okAfterCF w && (!y.remoteClientDropped || (openReqs w).isEmpty) &&
   decide (y.clientDroppedQueued ≤ b2n y.remoteClientDropped) &&
   (!(x.goodbyeSent && !y.goodbyeReceived) || w.getLast? == some .goodbye)
 
